@@ -39,17 +39,20 @@ var propConfigs = map[string]*propConfig{
 	}},
 	"C11": {pkgs: []string{"./pkg/procbuilder", "./pkg/bondmachine"}, notes: []string{
 		"decided: Machine.Jsoner/Machine_json.Dejsoner and Bondmachine.Jsoner/Bondmachine_json.Dejsoner copy every persisted field (one obligation per struct field is generated from the struct definitions, so a field added without extending the copiers fails); Dejsoner restores an opcode for every name that is registered and never leaves such an entry nil; a save-then-load harness proves field-wise equality and same-name opcode restoration for machines whose opcodes are registered",
+		"decided for shared objects: for lfsr8, barrier, queue, stack, sharedmem and channel the instance's String and the element's Instantiate are proved inverse on every parameter value, and every Instantiate accepts only texts with its own kind prefix (so the first-match loop of Dejsoner cannot pick another kind)",
 		"transient fields by declaration: Conproc.CpID, Conproc.SharedHDLOps, Arch.Tag (assigned by the HDL writer before use)",
-		"not decided: 'simulates identically / regenerates byte-identical Verilog' (follows only if those depend on persisted fields alone), the textual round trip of shared objects (Shared_instance.String / Shared_element.Instantiate are trusted to be inverse), EventuallyCreateInstruction (trusted contract: it keeps registered opcodes in place and does not append when the name is already registered), encoding/json itself",
+		"not decided: 'simulates identically / regenerates byte-identical Verilog' (follows only if those depend on persisted fields alone), the textual round trip of the kbd, uart and vtextmem shared objects (parameters parsed with strings.Split; only their claim on the text prefix is proved), EventuallyCreateInstruction (trusted contract: it keeps registered opcodes in place and does not append when the name is already registered), encoding/json itself",
 	}},
-	"C14": {pkgs: []string{"./pkg/bmmatrix"}, extra: c14Canary, notes: []string{
+	"C14": {pkgs: []string{"./pkg/bmmatrix", "./pkg/bmqsim"}, extra: c14Canary, notes: []string{
+		"decided for the software simulation: RunSoftwareSimulation gives every input state vector a buffer of its own: the output vectors are freshly allocated, pairwise distinct arrays, no input vector and no output already stored is written again (loop frame), and the input list is unchanged; MatrixVectorProductComplex and StateSize are trusted (float arithmetic / math.Pow)",
 		"decided (discrete kernel only): bmmatrix.SwapRowsColsComplex is exact data movement, result[i][j] == a[tau(i)][tau(j)] for the transposition tau=(x y), for well-formed square matrices of any size, leaving its argument untouched; NewBmMatrixSquareComplex returns a fresh, zeroed, well-formed matrix whose rows do not share storage; IdentityComplex is the identity pattern (float32 values are opaque: no floating-point arithmetic is interpreted)",
-		"not decided: that the emitted matrices multiply to the circuit's unitary and are unitary within tolerance (nonlinear float32 arithmetic is outside this family), swaps2baseSwaps (64-bit bit manipulation and a map; no bit-vector mode in the engine), BmMatrixFromOperation's argument reordering, QasmToBmMatrices' layering, RunSoftwareSimulation",
-		"known finding F3 (two two-qubit gates on interleaved qubits in one layer compile to the matrix of the adjacent circuit) is re-observed on every run by replaying its recorded circuit on the real compiler; that replay is a test of one input, not a proof",
+		"not decided: that the emitted matrices multiply to the circuit's unitary and are unitary within tolerance (nonlinear float32 arithmetic is outside this family), swaps2baseSwaps (64-bit bit manipulation and a map; no bit-vector mode in the engine), BmMatrixFromOperation's argument reordering, QasmToBmMatrices' layering, the numeric content of the simulated state",
+		"defect F3 (two two-qubit gates on interleaved qubits in one layer compiled to the matrix of the adjacent circuit; repaired by a fix: commit) is watched on every run by replaying its recorded circuit on the real compiler; that replay is a test of one input, not a proof, and is not counted among the obligations",
 	}},
 	"C15": {pkgs: []string{"./pkg/simbox", "./pkg/bondmachine", "./pkg/procbuilder"}, notes: []string{
 		"decided: Simbox.Add appends exactly one, not suspended, rule or leaves the list untouched; Del/Suspend/Reactivate have exactly their stated effect and change nothing else; bondmachine.SimConfig.Init and procbuilder.SimConfig.Init set an option iff it was already set or some not-suspended configuration rule names it (a suspended rule has no effect on the configuration)",
-		"not decided: the print/parse round trip of rules (Rule.String against Add needs a theory of strings.Split over concatenations that the uninterpreted string model does not have), SimDrive.Init/SimReport.Init (store and compare *interface{} pointers; outside the subset) and the per-tick injection/report semantics",
+		"decided: Rule.String prints exactly the documented text of each rule form; every rule Add creates is of a printable form (image), and for every such rule x, Add(text(x)) succeeds and appends exactly x (inverse) - proved on every path of Add, including the final rejection; strings.Split is modelled by the field laws of one-character separators (nfields/field homomorphism over concatenation, part of the string model T2)",
+		"not decided: rule files on disk (encoding/json), SimDrive.Init/SimReport.Init (store and compare *interface{} pointers; outside the subset) and the per-tick injection/report semantics",
 	}},
 	"C16": {pkgs: []string{"./pkg/procbuilder", "./pkg/bondmachine", "./pkg/basm", "./pkg/bondgo", "./pkg/bmstack", "./pkg/bmserialize", "./pkg/bondirect"}, notes: []string{
 		"requirement inference of the front ends (basm, bondgo, neuralbond: how many registers/ports/ROM cells a source needs) is string-, map- and goroutine-server code outside the verifiable subset",
@@ -57,6 +60,8 @@ var propConfigs = map[string]*propConfig{
 		"bond-graph well-formedness of constructed machines is property C10's check",
 	}},
 	"C08": {pkgs: []string{"./pkg/bmnumbers"}, extra: func(c *checkRun) { c.regLanObligations("bmnumbers") }, notes: []string{
+		"decided for clause (b), binary renderings: ExportBinaryNBits returns exactly the requested number of binary digits or an error; ExportVerilogBinary returns <bits>'b followed by binary digits, exactly <bits> of them unless the value needs more (then no leading zero); ExportBinary strips every leading zero; for byte strings of any length and any declared width",
+		"not decided for clause (b): the importers (regexp capture groups are opaque), hex/decimal export (math/big), print/parse round trips through ImportString",
 		"float16/float32, fixed point, FloPoCo and linear-quantiser import/export go through strconv.ParseFloat and float scaling: floating point is outside this family; only the integer notations (unsigned, signed, bin, hex) are under functional contract",
 		"the regular languages are those of Go's regexp/syntax parse of the pattern strings found in the importMatchers methods; runes above U+2FFFF are clipped (SMT-LIB string alphabet)",
 	}},
@@ -66,7 +71,8 @@ var propConfigs = map[string]*propConfig{
 		"bit-reinterpretation helpers (Int8bits..., unsafe.Pointer casts) and the fixed-point arithmetic helpers are trusted to be functions of their arguments",
 	}},
 	"C10": {pkgs: []string{"./pkg/bondmachine"}, notes: []string{
-		"Attach_benchmark_core / AttachBenchmarkCoreV2 are compositions of the verified edits with assembler calls; their bodies are not under contract here",
+		"Add_bond is under contract: it writes at most one link slot, the first internal input named by one of the two endpoints, which afterwards points at the internal output named by the other; Bond.String is proved against the naming function",
+		"Attach_benchmark_core / AttachBenchmarkCoreV2 are under contract: they keep the machine well formed and leave every link slot and endpoint that existed before untouched (frameonly: callee preconditions, e.g. the assembler's, are assumed). That the three new bonds address only the new processor rests on five assumed string facts (axioms nameOf*, nameLiterals in the contract file: endpoint names decode uniquely; \"i0\" is \"i\" followed by the decimal rendering of 0), which the uninterpreted string model cannot derive; sort.Sort is modelled as an arbitrary rearrangement of the sorted slice",
 		"negative indices (Del_input(-1), Del_bond(-1)) panic before any mutation; 0 <= id is a precondition",
 	}},
 }
@@ -84,6 +90,9 @@ type checkRun struct {
 	tier      string
 	seed      int
 	verifDir  string
+	retried   []string
+	outDir    string // where evidence/ and replay/ are written (the verification directory unless -out is given)
+	repo      string
 	eng       *Engine
 	obls      []*Obligation
 	funcs     []string
@@ -94,6 +103,7 @@ type checkRun struct {
 	excluded  []string
 	matchers  []matcherInfo
 	knownObls map[string]bool
+	canaryReplay map[string]*replayResult // what the replay of a recorded failing input showed, by canary name
 	canaries  []string // known findings observed by replaying their recorded failing input (no obligation expresses them)
 	start     time.Time
 }
@@ -113,6 +123,7 @@ func cmdCheck(args []string) {
 	prop := fs.String("prop", "", "property id")
 	tier := fs.String("tier", "quick", "quick|thorough")
 	verifDir := fs.String("verif", "/verif", "verification directory")
+	outDir := fs.String("out", "", "write evidence/ and replay/ below this directory instead of the verification directory (self test)")
 	updateInv := fs.Bool("update-inventory", false, "rewrite inventory/<id>.txt from this run (maintainer action, never done by a check)")
 	fs.Parse(args)
 	if t := os.Getenv("VERIF_TIER"); t == "quick" || t == "thorough" {
@@ -129,7 +140,10 @@ func cmdCheck(args []string) {
 		fmt.Fprintf(os.Stderr, "no check registered for property %q\n", *prop)
 		os.Exit(2)
 	}
-	c := &checkRun{prop: *prop, tier: *tier, seed: seed, verifDir: *verifDir, outside: map[string]string{}, start: time.Now()}
+	if *outDir == "" {
+		*outDir = *verifDir
+	}
+	c := &checkRun{prop: *prop, tier: *tier, seed: seed, verifDir: *verifDir, outDir: *outDir, repo: *repo, outside: map[string]string{}, start: time.Now()}
 	eng, err := loadEngine(*repo, cfg.pkgs, []string{filepath.Join(*verifDir, "spec")})
 	if err != nil {
 		// the tree does not load (compile error, or a contract that no longer parses): undecided, reported as such
@@ -215,7 +229,8 @@ func cmdCheck(args []string) {
 			tasks = append(tasks, verifyTask{funcKey(fn) + "@functype", func() *VC { return eng.verifyAgainstIface(fn, fc, nil) }})
 		}
 	}
-	for i, vc := range runTasks(tasks, 8) {
+	vcs := runTasks(tasks, 8)
+	for i, vc := range vcs {
 		k := tasks[i].key
 		if vc.outside != "" {
 			c.outside[k] = vc.outside
@@ -227,9 +242,11 @@ func cmdCheck(args []string) {
 		}
 		c.obls = append(c.obls, vc.obls...)
 	}
+	nFuncObls := len(c.obls)
 	if cfg.extra != nil {
 		cfg.extra(c)
 	}
+	extraObls := append([]*Obligation(nil), c.obls[nFuncObls:]...)
 	// discharge
 	scratch := scratchDir()
 	defer os.RemoveAll(scratch)
@@ -240,6 +257,64 @@ func cmdCheck(args []string) {
 		opts.workers = 8
 	}
 	solveAll(c.obls, opts)
+	// Second chance: a function whose proof did not go through for lack of an answer (timeout/unknown - never a
+	// counterexample) is generated and solved once more, alone and with three times the time, so that a loaded machine
+	// does not turn into an alarm. A proof that still does not go through is reported.
+	var again []int
+	for i, vc := range vcs {
+		if vc.outside != "" {
+			continue
+		}
+		undecided, refuted := false, false
+		for _, o := range vc.obls {
+			if o.ok() {
+				continue
+			}
+			if o.Result == "sat" || o.Result == "disagree" || (o.ExpectSat && o.Result == "unsat") {
+				refuted = true
+			} else {
+				undecided = true
+			}
+		}
+		if undecided && !refuted {
+			again = append(again, i)
+		}
+	}
+	if len(again) > 0 && len(again) <= 16 {
+		houdiniTimeoutS = 30
+		opts2 := opts
+		opts2.timeoutS = opts.timeoutS * 3
+		for _, i := range again {
+			vc2 := tasks[i].run()
+			if vc2.outside != "" {
+				continue
+			}
+			solveAll(vc2.obls, opts2)
+			bad1, bad2 := 0, 0
+			for _, o := range vcs[i].obls {
+				if !o.ok() {
+					bad1++
+				}
+			}
+			for _, o := range vc2.obls {
+				if !o.ok() {
+					bad2++
+				}
+			}
+			c.retried = append(c.retried, fmt.Sprintf("%s: %d undischarged at %ds, %d at %ds", tasks[i].key, bad1, opts.timeoutS, bad2, opts2.timeoutS))
+			if bad2 < bad1 {
+				vcs[i] = vc2
+			}
+		}
+		houdiniTimeoutS = 8
+		c.obls = c.obls[:0]
+		for _, vc := range vcs {
+			if vc.outside == "" {
+				c.obls = append(c.obls, vc.obls...)
+			}
+		}
+		c.obls = append(c.obls, extraObls...)
+	}
 	if *tier == "thorough" {
 		// a single-solver unsat is accepted when the other solvers gave no answer (never when one said sat)
 		for _, o := range c.obls {
@@ -296,7 +371,7 @@ func (c *checkRun) loadKnown() []knownFinding {
 }
 
 func (c *checkRun) replayDir() string {
-	d := filepath.Join(c.verifDir, "replay", c.prop)
+	d := filepath.Join(c.outDir, "replay", c.prop)
 	os.MkdirAll(d, 0o755)
 	return d
 }
@@ -409,6 +484,10 @@ func (c *checkRun) report(cfg *propConfig) {
 				doc["replay"] = rr
 				replayed = rr.Confirmed
 			}
+		}
+		if rr := c.canaryReplay[b]; rr != nil {
+			doc["replay"] = rr
+			replayed = rr.Confirmed
 		}
 		doc["failing_input_found"] = replayed
 		bts, _ := json.MarshalIndent(doc, "", " ")
@@ -531,6 +610,7 @@ func (c *checkRun) writeEvidence(cfg *propConfig, nviol int, extraAssumptions []
 		"discharged_by_backend":    bySolver,
 		"solver_seconds":           secs,
 		"vacuity_probes":           probes,
+		"second_chance_functions":  c.retried,
 		"vacuity_probe_results":    probeRes,
 		"inventory_missing":        c.missing,
 		"known_finding_obligations": knownFailing,
@@ -552,9 +632,9 @@ func (c *checkRun) writeEvidence(cfg *propConfig, nviol int, extraAssumptions []
 		"wall_s":      time.Since(c.start).Seconds(),
 		"violations":  nviol,
 	}
-	os.MkdirAll(filepath.Join(c.verifDir, "evidence"), 0o755)
+	os.MkdirAll(filepath.Join(c.outDir, "evidence"), 0o755)
 	b, _ := json.MarshalIndent(ev, "", " ")
-	os.WriteFile(filepath.Join(c.verifDir, "evidence", c.prop+".json"), b, 0o644)
+	os.WriteFile(filepath.Join(c.outDir, "evidence", c.prop+".json"), b, 0o644)
 }
 
 type replayResult struct {
